@@ -16,4 +16,4 @@ func (tree *Tree[T]) vtraceOp(string, string, []string) {}
 
 func (tree *Tree[T]) vtraceEnter(*types.Context) {}
 
-func (tree *Tree[T]) vtraceServe(*types.Context, string, types.Node, bool) {}
+func (tree *Tree[T]) vtraceServe(*types.Context, string, *node[T], bool) {}
